@@ -1,4 +1,5 @@
 import CffiVerif.Model.ConstExprProto
+import CffiVerif.Spec.CConstExprNoWrap
 open CffiVerif CffiVerif.Proto CffiVerif.ConstExpr CffiVerif.ConstExprProto
 
 /-!
@@ -7,11 +8,11 @@ Line protocol of the C09 driver.
   reset
   bind NAME INT TAG|- CVAL     bind a name in cffi's `_int_constants` and (unless TAG is `-`) in C's scope
   macro NAME Lc.c.c…           `#define NAME text` / `static const int NAME = text;` (text = code points):
-                               answer `ok model=<int|err:K|nomatch> spec=<tag:int|undef>`; binds on success
+                               answer `ok model=<int|err:K|nomatch> spec=<tag:int|undef> nowrap=<0|1>`; binds on success
   bindlast NAME                bind NAME to the results of the last `expr` (enumerator rule: type int if it fits)
   expr TOKEN…                  prefix notation: Lc.c.c (literal token), pos, neg, R<name>, add sub mul div mod
-                               shl shr band bor bxor, unsup
-                               answer `ok model=<int|err:K> spec=<tag:int|undef|nogrammar> allsigned=<0|1>`
+                               shl shr band bor bxor, unsup, unsupbin
+                               answer `ok model=<int|err:K> spec=<tag:int|undef|nogrammar> allsigned=<0|1> nowrap=<0|1>`
 -/
 
 namespace C09Driver
@@ -45,7 +46,8 @@ def step (s : St) : List String → St × String
         | some tv => { s1 with cenv := (n, tv) :: s1.cenv }
         | none => s1
       let ms := match m with | none => "nomatch" | some r => showModel r
-      (s2, s!"ok model={ms} spec={showSpec sp}")
+      let noW := match ce with | some c => CConstExpr.noWrap s.c c | none => false
+      (s2, s!"ok model={ms} spec={showSpec sp} nowrap={if noW then 1 else 0}")
   | ["bindlast", n] =>
     let s1 := match s.lastModel with
       | some v => { s with penv := (n, v) :: s.penv }
@@ -62,12 +64,12 @@ def step (s : St) : List String → St × String
         | some c => decide (reprStr c.toModel = reprStr e)
         | none => true
       if !consistent then (s, "bad-op") else
-      let (sp, spStr, allS) := match ce with
+      let (sp, spStr, allS, noW) := match ce with
         | some c => let r := CConstExpr.eval s.c c
-                    (r, showSpec r, CConstExpr.allSigned s.c c)
-        | none => (none, "nogrammar", false)
+                    (r, showSpec r, CConstExpr.allSigned s.c c, CConstExpr.noWrap s.c c)
+        | none => (none, "nogrammar", false, false)
       ({ s with lastModel := (match m with | .ok v => some v | _ => none), lastSpec := sp },
-       s!"ok model={showModel m} spec={spStr} allsigned={if allS then 1 else 0}")
+       s!"ok model={showModel m} spec={spStr} allsigned={if allS then 1 else 0} nowrap={if noW then 1 else 0}")
     | _ => (s, "bad-op")
   | _ => (s, "bad-op")
 
